@@ -56,10 +56,20 @@ macro_rules! chk {
 
 fn pair_values(n: usize, ctx: &Ctx) -> Vec<Limbs> {
     let th = ctx.thorough();
-    let mut v = if n <= 2 {
+    let mut v = if th {
+        // thorough: larger alphabets (complete products up to 4 limbs), three-run patterns over L9 above
+        match n {
+            1 | 2 => full(n, &l13(ctx.seed)),
+            3 => full(n, &l9()),
+            4 => {
+                let mut v = full(n, &l5());
+                v.extend(runs(n, &l9(), 3));
+                v
+            }
+            _ => runs(n, &l9(), 3),
+        }
+    } else if n <= 2 {
         full(n, &l9())
-    } else if n <= 4 {
-        runs(n, &l5(), 3)
     } else {
         runs(n, &l5(), 3)
     };
@@ -83,7 +93,7 @@ fn pair_values(n: usize, ctx: &Ctx) -> Vec<Limbs> {
     mx[n - 1] = TOP - 1;
     v.push(mx);
     let v = dedup(v);
-    if th { thin(v, 4000) } else { thin(v, 1000) }
+    if th { thin(v, 5500) } else { thin(v, 1000) }
 }
 
 fn signed_cmp(a: &[u64], b_: &[u64]) -> Ordering {
@@ -343,7 +353,12 @@ fn fam_limb(ctx: &Ctx) {
 }
 
 fn boxed_values(n: usize, ctx: &Ctx) -> Vec<Limbs> {
-    let mut v = if n <= 2 { full(n, &l5()) } else { runs(n, &l5(), 2) };
+    let mut v = match (ctx.thorough(), n) {
+        (true, 1 | 2) => full(n, &l9()),
+        (true, _) => thin(runs(n, &l9(), 3), 700),
+        (false, 1 | 2) => full(n, &l5()),
+        (false, _) => runs(n, &l5(), 2),
+    };
     let (g1, _) = generic_limbs(ctx.seed);
     v.push((0..n).map(|i| if i == 0 { g1 } else { 0 }).collect()); // zero-padded small value
     v.push((0..n).map(|i| g1.rotate_left(i as u32)).collect());
@@ -354,8 +369,8 @@ fn fam_boxed(ctx: &Ctx) {
     if !ctx.want("boxed_cmp") {
         return;
     }
-    let lens: Vec<usize> = if ctx.thorough() { (1..=8).collect() } else { (1..=6).collect() };
-    let sets: Vec<Vec<Limbs>> = (0..=8).map(|n| if n == 0 { vec![] } else { boxed_values(n, ctx) }).collect();
+    let lens: Vec<usize> = if ctx.thorough() { (1..=12).collect() } else { (1..=6).collect() };
+    let sets: Vec<Vec<Limbs>> = (0..=12).map(|n| if n == 0 { vec![] } else { boxed_values(n, ctx) }).collect();
     for &la in &lens {
         for &lb in &lens {
             let (sa, sb) = (&sets[la], &sets[lb]);
@@ -458,6 +473,7 @@ fn fam_boxed(ctx: &Ctx) {
 
 fn main() {
     let ctx = Ctx::from_args(P, "exploration");
+    ctx.section_cap.store(40_000_000, std::sync::atomic::Ordering::Relaxed); // comparisons cost ~0.1 us per form
     ctx.set_rule("E1: complete pair products (FULL(n,L9)^2 n<=2; RUNS(n,L5,3) n<=4; RUNS(n,L5,2) wider) plus values differing only in the lowest limb / highest limb / sign bit, MIN, MAX; \
         boxed pairs of independent precision 1..=6(8) limbs incl. zero-padded equal values; every predicate compared with the BigUint / two's-complement order; equal values must hash equally under two hashers; \
         every selector with both choice values must return the chosen operand bit for bit. Non-trivial: a != b.");
